@@ -62,7 +62,7 @@ func init() {
 		[]string{"records_accepted", "overwrite_attempts_rejected", "prunes"})
 	mk("C08", c08Rules, "same history engine as C07 with purchase-heavy weights (0, exact-to-max, over-max, 2^63, wrapping counts; top-level, several per tx, authz-nested) and governance raising/lowering default and max limits mid-history; after every transaction the retention set, the counters, the limit ledger and the *Storage query are compared with the reference model. distinct = (module, limit, purchase class, outcome, pruned?); non-trivial = history where a registration both pruned and purchased",
 		[]string{"prunes", "purchases_ok", "purchases_rejected"})
-	mk("C09", c09Rules, "same history engine with many owners registering in both modules interleaved, fields at and beyond size limits, starting ids {1,1000,2^32+5}, and periodic full (signer x id) cross-product probe blocks of record and purchase attempts; ids must be sequential from the genesis starting id, stored fields frozen, non-owner/unknown-id attempts rejected with both module stores byte-identical. distinct = (module, op, owner?/known id?, outcome); non-trivial = history with >=3 owners and >=1 cross-product probe",
+	mk("C09", c09Rules, "same history engine with many owners registering in both modules interleaved, fields at and beyond size limits, starting ids {1,1000,2^32+5}, a re-import whose genesis lists the registrations in reverse id order, and periodic full (signer x id) cross-product probe blocks of record and purchase attempts; ids must be sequential from the genesis starting id, stored fields frozen, non-owner/unknown-id attempts rejected with both module stores byte-identical. distinct = (module, op, owner?/known id?, outcome); non-trivial = history with >=3 owners and >=1 cross-product probe",
 		[]string{"registrations", "nonowner_attempts_rejected", "probe_blocks"})
 }
 
